@@ -47,6 +47,7 @@ func runC15(c *core.Ctx) {
 	c15R2(c)
 	c15R3(c)
 	c06R4(c, "C15.R4")
+	uniqueRule(c, "C15.R5")
 }
 
 // errorUsed reports whether the error value v is returned, stored into a result, or tested.
